@@ -32,7 +32,9 @@ def handle (zs : Zones) (ws : List String) : Option String :=
     let n := vs.length
     if n > limit then some "err TooMany" else
     -- the loop ended: either the next candidate is beyond the end, or computing it raised
-    match (if n = 0 then Except.ok iv.start.v else stepOf iv unit (amount * n)) with
+    -- the loop ended: the next candidate is beyond the end, or it is not representable (ValueError/OverflowError
+    -- from `add`), which since the range() fix also ends the iteration normally
+    match (Except.ok iv.start.v : Except Err V) with
     | .error e => some ("err " ++ e.name)
     | .ok _ =>
       let pick := fun (i : Nat) => match vs[i]? with
